@@ -1255,6 +1255,11 @@ func (h H) setTermPrecondition(rule string) {
 			r := fi.MustCross(c.(ssa.Instruction), func(a core.Atom) bool { return a.Implies(want) })
 			if !r.OK && viaPeer[h.name(fn)] && strings.Contains(arg, "assert[newTerm]") {
 				h.C.Check(rule, h.site(fn, st, k)+" (term reported by a peer)", true, h.pos(c.(ssa.Instruction)), "accepted: newTerm updates are produced only for staleTerm answers (checked below)")
+				// the peer compared with this leadership's term, which the call
+				// has just left behind: no second update may be consumed after it
+				// (another follower's newTerm, possibly lower, is queued behind)
+				more := consumesAfter(c.(ssa.Instruction))
+				h.C.Check(rule+" nothing-consumed-after-stepping-down", h.site(fn, st, k), more == nil, h.pos(c.(ssa.Instruction)), "after adopting a term reported by a replication the function goes on consuming queued updates (a second newTerm with a lower term reaches setTerm's assertion; a match index is booked by an ex-leader)"+posOf(h, more))
 				continue
 			}
 			h.C.Check(rule, h.site(fn, st, k), r.OK, h.pos(c.(ssa.Instruction)), "setTerm("+arg+") is reachable without "+want.String()+": its assertion would terminate the process: "+r.Witness)
@@ -1279,4 +1284,53 @@ func (h H) setTermPrecondition(rule string) {
 		}
 	}
 	h.C.Floor(rule+" (newTerm producers)", m, 2)
+}
+
+// consumesAfter: a channel receive (plain or in a select) that can execute
+// after instruction `from` in its function, or nil.
+func consumesAfter(from ssa.Instruction) ssa.Instruction {
+	b := from.Block()
+	start := 0
+	for i, in := range b.Instrs {
+		if in == from {
+			start = i + 1
+		}
+	}
+	seen := map[*ssa.BasicBlock]bool{}
+	var scan func(b *ssa.BasicBlock, i int) ssa.Instruction
+	scan = func(b *ssa.BasicBlock, i int) ssa.Instruction {
+		for ; i < len(b.Instrs); i++ {
+			switch x := b.Instrs[i].(type) {
+			case *ssa.Select:
+				for _, st := range x.States {
+					if st.Dir == types.RecvOnly {
+						return x
+					}
+				}
+			case *ssa.UnOp:
+				if x.Op == token.ARROW {
+					return x
+				}
+			case *ssa.Return, *ssa.Panic:
+				return nil
+			}
+		}
+		for _, s := range b.Succs {
+			if !seen[s] {
+				seen[s] = true
+				if r := scan(s, 0); r != nil {
+					return r
+				}
+			}
+		}
+		return nil
+	}
+	return scan(b, start)
+}
+
+func posOf(h H, in ssa.Instruction) string {
+	if in == nil {
+		return ""
+	}
+	return ": receive at " + h.pos(in)
 }
